@@ -20,7 +20,8 @@
 (*  begin, ende, outint, outday, ztbr (irrigation dates), ztdg (fertiliser  *)
 (*  dates, slot 0 = residues of the initial crop), nr (stages per rotation  *)
 (*  entry), keep (entry keeps its stage at harvest: cut grassland),         *)
-(*  autoMan / autoHar / autoFert / autoIrr, have (calendar years covered by *)
+(*  autoMan / autoHar / autoFert / autoIrr, orgH (organic fertiliser due at *)
+(*  the harvest of the entry), have (calendar years covered by            *)
 (*  the weather input).  Arrays are TLA+ sequences; At0 reads them with the *)
 (*  0-based indices of the code and yields 0 past the end, as the zeroed    *)
 (*  Go arrays do.                                                           *)
@@ -36,7 +37,8 @@ VARIABLES ph,     \* position in the day loop (the probe that fires next)
           cal,    \* [zeit, tag, yr, jtag, jz]: day number, day of year, year, length of the loaded year, year counter
           cur,    \* [nbr, ndg, ntil]: cursors of irrigation (1-based NBR), fertiliser and tillage (0-based indices)
           rot,    \* [akf, saat, saat2, ernte, ernte2, einte, ztbr]: rotation index and the arrays the loop rewrites
-          crp,    \* [stage, growing]: stage number (INTWICK.Num, 0 = none), PhytoOut ran today
+          crp,    \* [stage, growing, nr, peren]: stage number (INTWICK.Num, 0 = none), PhytoOut ran today, number of stages of the
+                  \*                       crop file read at the last sowing (NRENTW), perennial flag of that file
           stp,    \* [steps, sub]: sub-steps of the day, sub-steps done
           recs,   \* [daily, yearly, crop]: day numbers of the records written to the three result files
           done    \* [irr, fert, till, sow, harv]: executed management, as <<day, slot>>
@@ -49,16 +51,20 @@ Zeit == cal.zeit
 
 \* ---------------------------------------------------------------------------------------------
 \* start of a run: Input() has filled the arrays, Init() has set the day counter one before the first day
+Start(p, doy0, yr0) ==
+   [proj |-> p,
+    cal |-> [zeit |-> p.begin, tag |-> doy0 - 1, yr |-> yr0, jtag |-> YLen(yr0), jz |-> 1],
+    cur |-> [nbr |-> 1, ndg |-> 0, ntil |-> 0],
+    rot |-> [akf |-> 0, saat |-> p.saat, saat2 |-> p.saat2, ernte |-> p.ernte, ernte2 |-> p.ernte2, einte |-> p.einte, ztbr |-> p.ztbr],
+    crp |-> [stage |-> 0, growing |-> FALSE, nr |-> 0, peren |-> FALSE],
+    stp |-> [steps |-> 0, sub |-> 0],
+    recs |-> [daily |-> <<>>, yearly |-> <<>>, crop |-> <<>>],
+    done |-> [irr |-> <<>>, fert |-> <<>>, till |-> <<>>, sow |-> <<>>, harv |-> <<>>],
+    ph |-> "top"]
 RunInit(p, doy0, yr0) ==
-   /\ proj = p
-   /\ cal = [zeit |-> p.begin, tag |-> doy0 - 1, yr |-> yr0, jtag |-> YLen(yr0), jz |-> 1]
-   /\ cur = [nbr |-> 1, ndg |-> 0, ntil |-> 0]
-   /\ rot = [akf |-> 0, saat |-> p.saat, saat2 |-> p.saat2, ernte |-> p.ernte, ernte2 |-> p.ernte2, einte |-> p.einte, ztbr |-> p.ztbr]
-   /\ crp = [stage |-> 0, growing |-> FALSE]
-   /\ stp = [steps |-> 0, sub |-> 0]
-   /\ recs = [daily |-> <<>>, yearly |-> <<>>, crop |-> <<>>]
-   /\ done = [irr |-> <<>>, fert |-> <<>>, till |-> <<>>, sow |-> <<>>, harv |-> <<>>]
-   /\ ph = "top"
+   LET s == Start(p, doy0, yr0) IN
+   /\ proj = s.proj /\ cal = s.cal /\ cur = s.cur /\ rot = s.rot /\ crp = s.crp
+   /\ stp = s.stp /\ recs = s.recs /\ done = s.done /\ ph = s.ph
 
 \* ---------------------------------------------------------------------------------------------
 \* day.top: advance the day-of-year counter; past the length of the LOADED year the year rolls over (run.go 322-329)
@@ -120,31 +126,35 @@ SubWater == /\ ph = "water" /\ ph' = (IF stp.sub = 1 THEN "crop" ELSE "move")
             /\ UNCHANGED <<proj, cal, cur, rot, crp, stp, recs, done>>
 
 \* sub.crop (first sub-step): PhytoOut between sowing and the latest harvest date (run.go 613-621; crop.go):
-\* sowing resets the stage machine, the stage may advance by one (never past the last stage of the crop), the
+\* sowing reads the crop file (its number of stages: nrRead) and resets the stage machine, the stage may advance by one (never past the last stage of the crop), the
 \* automatic harvest fixes the harvest date: today when its trigger fires in the last stage, tomorrow on the day
 \* before the latest date
 InSeason == Akf >= 1 /\ At0(rot.saat, Akf) > 0 /\ Zeit >= At0(rot.saat, Akf) /\ Zeit <= At0(rot.ernte2, Akf)
-SubCrop(adv, harvTrig, restart) ==
+SubCrop(adv, harvTrig, restart, regrow, nrRead, perRead) ==
    /\ ph = "crop"
    /\ IF InSeason
       THEN LET sow == Zeit = At0(rot.saat, Akf)
                s0 == IF sow THEN (IF restart THEN 2 ELSE 1) ELSE crp.stage
-               s1 == IF adv /\ s0 < At0(proj.nr, Akf) THEN s0 + 1 ELSE s0
+               nr == IF sow THEN nrRead ELSE crp.nr
+               per == IF sow THEN perRead ELSE crp.peren
+               s1 == IF adv /\ s0 < nr THEN s0 + 1 ELSE s0
                auto == At0(rot.ernte, Akf) = 0
-               today == auto /\ harvTrig /\ s1 = At0(proj.nr, Akf)
+               today == auto /\ harvTrig /\ s1 = nr
                tomorrow == auto /\ ~today /\ Zeit = At0(rot.ernte2, Akf) - 1
                e1 == IF today THEN Set0(rot.ernte, Akf, Zeit) ELSE IF tomorrow THEN Set0(rot.ernte, Akf, Zeit + 1) ELSE rot.ernte
                e2 == IF today THEN Set0(rot.ernte2, Akf, Zeit) ELSE rot.ernte2
                hd == IF today THEN Zeit ELSE Zeit + 1
                push == (today \/ tomorrow) /\ At0(rot.saat, Akf + 1) > 0 /\ At0(rot.saat, Akf + 1) < Zeit
-           IN /\ (restart => sow) /\ (harvTrig => auto)
+               \* perennial regrowth (crop.go 519-539): past stage 4 a stand that lost its leaves starts again at stage 1
+               s2 == IF regrow THEN 1 ELSE s1
+           IN /\ (restart => sow) /\ (harvTrig => auto) /\ (regrow => per /\ s1 > 4)
               /\ (sow => ~adv /\ ~harvTrig)        \* the temperature sums start at sowing: no advance, no maturity that day
-              /\ crp' = [stage |-> s1, growing |-> TRUE]
+              /\ crp' = [stage |-> s2, growing |-> TRUE, nr |-> nr, peren |-> per]
               /\ rot' = [rot EXCEPT !.ernte = e1, !.ernte2 = e2,
                                     !.saat = IF push THEN Set0(@, Akf + 1, hd + 4) ELSE @,
                                     !.saat2 = IF push THEN Set0(@, Akf + 1, hd + 4) ELSE @]
               /\ done' = [done EXCEPT !.sow = IF sow THEN Append(@, <<Zeit, Akf>>) ELSE @]
-      ELSE /\ ~adv /\ ~harvTrig /\ ~restart
+      ELSE /\ ~adv /\ ~harvTrig /\ ~restart /\ ~regrow
            /\ crp' = [crp EXCEPT !.growing = FALSE] /\ UNCHANGED <<rot, done>>
    /\ ph' = "mineral"
    /\ UNCHANGED <<proj, cal, cur, stp, recs>>
@@ -175,15 +185,22 @@ NitroMineral ==
 \* to the next entry and the stage machine is reset (cut grassland keeps its stage).  Later sub-steps only re-test the
 \* tillage conflict.
 Harvest == stp.sub = 1 /\ Zeit = At0(rot.ernte, Akf)
-NitroMove ==
+\* skipped entry (nitro.go 464-528): with automatic management, when the latest sowing date of the NEXT entry is not
+\* after the harvest day (and organic fertiliser is due at harvest: abstracted into the parameter), the next entry
+\* is passed over: the rotation moves on twice, the crop record of the day is the record of the skipped entry (the
+\* record of the harvested crop is overwritten: one record for two entries), a tillage date is set for tomorrow
+SkipPossible == Harvest /\ proj.autoMan /\ Akf >= 1 /\ At0(proj.orgH, Akf) = 1 /\ At0(rot.saat2, Akf + 1) <= Zeit
+NitroMove(skip) ==
    /\ ph = "move"
+   /\ skip => SkipPossible
    /\ IF stp.sub > 1 /\ TillConflict(rot, cur.ntil)
       THEN ph' = "failed" /\ UNCHANGED <<rot, crp, recs, done>>
       ELSE /\ ph' = "nitro"
            /\ IF Harvest
-              THEN /\ rot' = [rot EXCEPT !.akf = @ + 1]
-                   /\ crp' = [crp EXCEPT !.stage = IF At0(proj.keep, Akf + 1) = 1 THEN @ ELSE 0]
-                   /\ recs' = [recs EXCEPT !.crop = IF Akf >= 1 THEN Append(@, <<Zeit, Akf>>) ELSE @]
+              THEN LET nxt == IF skip THEN Akf + 2 ELSE Akf + 1 IN
+                   /\ rot' = [rot EXCEPT !.akf = nxt, !.einte = IF skip THEN Set0(@, cur.ntil, Zeit + 1) ELSE @]
+                   /\ crp' = [crp EXCEPT !.stage = IF At0(proj.keep, nxt) = 1 THEN @ ELSE 0]
+                   /\ recs' = [recs EXCEPT !.crop = IF Akf >= 1 THEN Append(@, <<Zeit, IF skip THEN Akf + 1 ELSE Akf>>) ELSE @]
                    /\ done' = [done EXCEPT !.harv = IF Akf >= 1 THEN Append(@, <<Zeit, Akf>>) ELSE @]
               ELSE UNCHANGED <<rot, crp, recs, done>>
    /\ UNCHANGED <<proj, cal, cur, stp>>
@@ -196,18 +213,19 @@ SubNitro == /\ ph = "nitro"
 DayDenit == ph = "denit" /\ ph' = "end" /\ UNCHANGED <<proj, cal, cur, rot, crp, stp, recs, done>>
 
 \* day.end: result records (run.go 664-744) and the loop condition
-DayEnd ==
+DayEnd(od) ==
    /\ ph = "end"
    /\ recs' = [recs EXCEPT !.daily = IF proj.outint > 0 /\ Zeit % proj.outint = 0 THEN Append(@, Zeit) ELSE @,
-                           !.yearly = IF cal.tag = proj.outday THEN Append(@, Zeit) ELSE @]
+                           !.yearly = IF cal.tag = od THEN Append(@, Zeit) ELSE @]
    /\ IF Zeit = proj.ende THEN ph' = "done" /\ UNCHANGED cal
       ELSE ph' = "top" /\ cal' = [cal EXCEPT !.zeit = @ + 1]
    /\ UNCHANGED <<proj, cur, rot, crp, stp, done>>
 
-Next == \/ DayTop \/ DayWeather \/ DayGw \/ DayEvatra \/ SubPre \/ SubWater \/ NitroMineral \/ NitroMove \/ SubNitro \/ DayDenit \/ DayEnd
+Next == \/ DayTop \/ DayWeather \/ DayGw \/ DayEvatra \/ SubPre \/ SubWater \/ NitroMineral \/ SubNitro \/ DayDenit \/ DayEnd(proj.outday)
+        \/ \E sk \in BOOLEAN : NitroMove(sk)
         \/ \E a \in BOOLEAN : DayInputs(a)
         \/ \E k \in 1..2, t \in BOOLEAN : DaySteps(k, t)
-        \/ \E a, h, r \in BOOLEAN : SubCrop(a, h, r)
+        \/ \E a, h, r, g \in BOOLEAN : SubCrop(a, h, r, g, At0(proj.nr, Akf), At0(proj.peren, Akf) = 1)
 
 \* =============================================================================================
 \* design-level statements (checked exhaustively by MC_HermesRun; the same names are evaluated on real runs by Trace_Sys)
@@ -219,7 +237,7 @@ S_CoveredOnly == ph \notin {"top", "weather", "failed"} => Covered(cal.yr)
 \* C01 (control part): the transport/ledger phases are reached exactly steps times a day
 S_AllSubSteps == ph \in {"denit", "end"} => stp.sub = stp.steps /\ stp.steps >= 1
 \* C09: between sowing and harvest of an entry the stage number never decreases; it never exceeds the crop's last stage
-S_StageBounded == crp.stage >= 0 /\ (Akf >= 1 /\ crp.stage > 0 /\ At0(proj.nr, Akf) > 0 => crp.stage <= At0(proj.nr, Akf) \/ At0(proj.keep, Akf) = 1)
+S_StageBounded == crp.stage >= 0 /\ (Akf >= 1 /\ crp.stage > 0 /\ crp.nr > 0 => crp.stage <= crp.nr \/ At0(proj.keep, Akf) = 1)
 \* C10: cursors only move forward by one and every executed slot was executed once, in slot order
 Increasing(s) == \A i \in 1..(Len(s) - 1) : s[i][2] < s[i + 1][2] /\ s[i][1] <= s[i + 1][1]
 S_OnceInOrder == Increasing(done.irr) /\ Increasing(done.fert) /\ Increasing(done.till) /\ Increasing(done.sow) /\ Increasing(done.harv)
@@ -243,6 +261,8 @@ S_Records == /\ \A i \in 1..Len(recs.daily) : recs.daily[i] % proj.outint = 0
              /\ (ph = "done" /\ proj.outint > 0 => Len(recs.daily) = (proj.ende \div proj.outint) - ((proj.begin - 1) \div proj.outint))
 \* C05: at most one yearly record per calendar year (strictly increasing, at least a year's shortest distance apart is
 \*      not demanded here: the calendar statement is Trace_Run's C05_YearlyDates)
+\* C05/C16: the i-th crop record is the record of the i-th harvested entry (a skipped entry breaks this: H19)
+S_CropRecordOwn == \A i \in 1..Len(recs.crop) : i <= Len(done.harv) => recs.crop[i] = done.harv[i]
 S_YearlyIncreasing == \A i \in 1..(Len(recs.yearly) - 1) : recs.yearly[i] < recs.yearly[i + 1]
 \* the phases of a day are passed in code order (structural: every state has a successor until the run is over)
 S_Live == ph \in {"done", "failed"} \/ ENABLED Next
